@@ -140,7 +140,14 @@ func c02Query(t *rapid.T, g *qgen) *topQ {
 	}
 	l := g.gen(rng(t, "c02_ldepth", 0, 1))
 	var q *qnode
-	switch gen.Weighted(t, "c02_shape", []int{5, 3, 1, 2, 2}) {
+	shape := gen.Weighted(t, "c02_shape", []int{5, 3, 1, 2, 2, 8})
+	if shape == 5 {
+		if lj := lookupJoin(t, g); lj != nil {
+			return lj
+		}
+		shape = 0
+	}
+	switch shape {
 	case 0:
 		q = g.join("join", l, g.leaf())
 	case 1:
@@ -161,10 +168,88 @@ func c02Query(t *rapid.T, g *qgen) *topQ {
 		q = g.extend(q)
 	}
 	tq := &topQ{q: q}
-	if gen.Chance(t, "c02_sort", 40) {
+	if gen.Chance(t, "c02_sort", 15) {
 		names := q.outNames()
 		tq.sort = subsetOf(t, names, 1, min(2, len(names)), "sortcols")
 		tq.reverse = gen.Chance(t, "reverse", 50)
+	}
+	return tq
+}
+
+// lookupJoin builds `L [where ..] join|leftjoin R [sort <index of L>]` where
+// the common columns are exactly a key of R that is not a key of L: the shape
+// that executes as a many-to-one lookup join (also in cursor mode, which has
+// no temp indexes).
+func lookupJoin(t *rapid.T, g *qgen) *topQ {
+	type cand struct {
+		l, r *tableT
+		key  []string
+	}
+	var cands []cand
+	for _, l := range g.db.tables {
+		for _, r := range g.db.tables {
+			if l == r {
+				continue
+			}
+			for _, key := range r.keys {
+				if len(key) == 0 || len(common(key, l.colNames())) != len(key) {
+					continue
+				}
+				isKeyOfL := false
+				for _, lk := range l.keys {
+					if len(common(lk, key)) == len(lk) {
+						isKeyOfL = true
+					}
+				}
+				if !isKeyOfL {
+					cands = append(cands, cand{l, r, key})
+				}
+			}
+		}
+	}
+	if len(cands) == 0 {
+		return nil
+	}
+	c := pickOf(t, "lj_cand", cands)
+	var left *qnode = tableNode(c.l)
+	// other common columns are removed from the left operand
+	extra := without(common(c.l.colNames(), c.r.colNames()), c.key)
+	if len(extra) > 0 {
+		if len(extra) == len(c.l.cols)-len(c.key) && len(c.key) == len(c.l.cols) {
+			return nil
+		}
+		q := &qnode{op: "remove", src: left, cols: extra}
+		for _, oc := range left.out {
+			if !contains(extra, oc.name) {
+				q.out = append(q.out, oc)
+			}
+		}
+		left = q
+	}
+	if gen.Chance(t, "lj_where", 30) {
+		left = g.where(left)
+	}
+	op := "join"
+	if gen.Chance(t, "lj_left", 35) {
+		op = "leftjoin"
+	}
+	q := g.join(op, left, tableNode(c.r))
+	if gen.Chance(t, "lj_wrap", 25) {
+		q = g.where(q)
+	}
+	tq := &topQ{q: q}
+	// sort by a prefix of an index of the left table that survived the remove
+	if gen.Chance(t, "lj_sort", 50) {
+		var prefixes [][]string
+		for _, ix := range c.l.allIndexes() {
+			if len(ix) > 0 && len(common(ix, extra)) == 0 {
+				prefixes = append(prefixes, ix[:rng(t, "lj_sortn", 1, len(ix))])
+			}
+		}
+		if len(prefixes) > 0 {
+			tq.sort = pickOf(t, "lj_sortix", prefixes)
+			tq.reverse = gen.Chance(t, "reverse", 30)
+		}
 	}
 	return tq
 }
@@ -178,7 +263,7 @@ type openRead struct {
 
 // TestC02Query: snapshot isolation as seen by queries and cursors.
 func TestC02Query(t *testing.T) {
-	rec := ev.New("C02", "query layer (in addition to the txn package): rapid-generated database (as C22) and a request emphasising join/leftjoin/semijoin onto a table, summarize and union; history of 5-9 steps: foreign commits (insert / delete by stored value / update of an unindexed column, each DoAction in its own update transaction), read transactions opened and held across the commits (query set up once per transaction, re-read with Next/Prev and with a fresh Setup under the same transaction), ONE CursorMode query object reused across transactions (SetTran before every Get; new and older read transactions and update transactions), and update transactions with own statements (query sees snapshot + own changes). Oracle: naive evaluator on the model snapshot of the transaction used: full reads must equal it as multisets; a continuing cursor Get under another transaction must return a row of that transaction's result (see docs/query.md for why only that). Non-trivial: a read (full or cursor) under a transaction whose snapshot differs from the latest committed state or from the snapshot of the cursor's previous transaction, with a non-empty result; distinct = query + database + history.")
+	rec := ev.New("C02", "query layer (in addition to the txn package): rapid-generated database (as C22) and a request emphasising join/leftjoin/semijoin onto a table, summarize and union; history of 6-10 steps: foreign commits (insert / delete by stored value / update of an unindexed column, each DoAction in its own update transaction), read transactions opened and held across the commits (query set up once per transaction, re-read with Next/Prev and with a fresh Setup under the same transaction), ONE CursorMode query object reused across transactions (SetTran before every Get; new and older read transactions and update transactions), and update transactions with own statements (query sees snapshot + own changes). Oracle: naive evaluator on the model snapshot of the transaction used: full reads must equal it as multisets; a continuing cursor Get under another transaction must return a row of that transaction's result (see docs/query.md for why only that). Non-trivial: a read (full or cursor) under a transaction whose snapshot differs from the latest committed state or from the snapshot of the cursor's previous transaction, with a non-empty result; distinct = query + database + history.")
 	rec.Assumptions = []string{
 		"cursor continuation across transactions: only membership of the returned row in the result on the current transaction's snapshot is asserted (the position contract across changed data is not documented); Rewind + full read under one transaction is compared exactly (as multiset)",
 		"foreign commits never happen while an update transaction of the history is open",
@@ -267,9 +352,9 @@ func TestC02Query(t *testing.T) {
 			})
 			return rows, err
 		}
-		nsteps := rng(t, "nsteps", 5, 9)
+		nsteps := rng(t, "nsteps", 6, 10)
 		for step := 0; step < nsteps && !skipped; step++ {
-			kind := gen.Weighted(t, "step", []int{4, 2, 3, 5, 1})
+			kind := gen.Weighted(t, "step", []int{5, 2, 3, 7, 1})
 			switch kind {
 			case 0: // foreign commit
 				text, tb, after := d.simpleStmt(t, prefer)
